@@ -289,12 +289,16 @@ impl ZincEncode for Grid {
             writer.write_all(b"<<\n")?;
         }
 
-        writer.write_fmt(format_args!("ver:\"{GRID_FORMAT_VERSION}\"\n"))?;
+        writer.write_fmt(format_args!("ver:\"{GRID_FORMAT_VERSION}\""))?;
 
-        // Grid meta
+        // Grid meta, on the version line
         if let Some(meta) = &self.meta {
-            write_dict_tags(writer, meta, b" ")?;
+            if !meta.is_empty() {
+                writer.write_all(b" ")?;
+                write_dict_tags(writer, meta, b" ")?;
+            }
         }
+        writer.write_all(b"\n")?;
 
         if self.is_empty() {
             // No rows to be written
@@ -410,7 +414,10 @@ impl ToZinc for Column {
     fn to_zinc<W: std::io::Write>(&self, writer: &mut W) -> Result<()> {
         write_str(writer, &self.name)?;
         if let Some(meta) = &self.meta {
-            write_dict_tags(writer, meta, b" ")?;
+            if !meta.is_empty() {
+                writer.write_all(b" ")?;
+                write_dict_tags(writer, meta, b" ")?;
+            }
         }
         Ok(())
     }
